@@ -360,9 +360,11 @@ def HS.coh (x : HS) : Bool :=
     | some t => decide (x.stage = .idle ∧ t = x.tag))
 
 /-- the invariant at the boundary between two legs; `running` = the handlers the activator has handed out and not
-yet taken back (`_running_event_handlers`) -/
+yet taken back (`_running_event_handlers`): no handler is `event_time_started`; a handler that is not running is
+`idle` and has no stored out-state; a running handler that is `idle` has a stored out-state -/
 def HS.boundary (x : HS) (running : Bool) : Bool :=
-  x.coh && decide (x.stage ≠ .timeStarted) && (running || decide (x.stage = .idle ∧ x.stored = none))
+  x.coh && decide (x.stage ≠ .timeStarted) &&
+    (if running then decide (x.stage = .idle → x.stored ≠ none) else decide (x.stage = .idle ∧ x.stored = none))
 
 /-- worker blocked in one of its two `wait()` calls and nothing unread in its pipe -/
 def HS.quiescent (x : HS) : Bool :=
